@@ -421,7 +421,7 @@ func init() {
 					c.Res.Capped = append(c.Res.Capped, "time budget before all configurations")
 					break
 				}
-				hx.Explore("C11", c11Scenario(cfg), hx.ExploreCfg{Bound: envBound(bounds[i]), Prune: true, Deadline: c.Deadline}, c.Res)
+				hx.Explore("C11", c11Scenario(cfg), hx.ExploreCfg{Bound: envBound(bounds[i]), Prune: true, Deadline: c.Deadline, AutoSites: bounds[i] > 0}, c.Res)
 			}
 		},
 		Rebuild: func(v *hx.Violation) *hx.Scenario {
